@@ -19,7 +19,9 @@ def confirm(d):
     sh("git -C %s worktree remove --force %s" % (REPO, wt))
     r = sh("git -C %s worktree add -q --detach %s HEAD" % (REPO, wt))
     assert r.returncode == 0, r.stderr
-    env = "cd %s && PYTHONPATH=%s/src" % (wt, wt)
+    os.makedirs(wt + "/.tmp", exist_ok=True)
+    # private TMPDIR: RamStorage.temp_storage() uses <tmp>/MAIN.tmp, which concurrent suites share
+    env = "cd %s && TMPDIR=%s/.tmp PYTHONPATH=%s/src" % (wt, wt, wt)
     out = {}
     try:
         demo = os.path.join(d, "demo.py")
